@@ -238,9 +238,10 @@ pub fn witness_fails(runner: &mut Runner, f: &Finding) -> Option<bool> {
         }
     }
     let end = w.get("expect_end").and_then(|e| e.as_str()).unwrap_or("ok");
+    let want_kind = w.get("expect_kind").and_then(|e| e.as_str());
     let ok = match &last.outcome {
         proto::Outcome::Ok => end == "ok",
-        proto::Outcome::Err { messages, .. } => end != "ok" && messages.get(0).map(|m| m.starts_with(end)).unwrap_or(false),
+        proto::Outcome::Err { messages, kind } => end != "ok" && messages.get(0).map(|m| m.starts_with(end)).unwrap_or(false) && want_kind.map(|k| k == kind).unwrap_or(true),
         proto::Outcome::Panic { .. } => false,
     };
     Some(!ok)
